@@ -108,15 +108,33 @@ func (c *Collection) Bounds() (minX, minY, maxX, maxY float64) {
 }
 
 func (c *Collection) indexDelete(item *object.Object) {
-	if !item.Geo().Empty() {
+	if indexable(item) {
 		c.spatial.Delete(rtreeItem(item))
 	}
 }
 
 func (c *Collection) indexInsert(item *object.Object) {
-	if !item.Geo().Empty() {
+	if indexable(item) {
 		c.spatial.Insert(rtreeItem(item))
 	}
+}
+
+// indexable reports whether an object gets an entry in the spatial index. An
+// empty geometry has no rectangle. A rectangle with a NaN or infinite side
+// (GeoJSON accepts `null` and `1e999` as coordinates) cannot be ordered: once
+// it is in the tree, later deletes no longer find their entries and deleted
+// objects keep turning up in searches.
+func indexable(item *object.Object) bool {
+	if item.Geo().Empty() {
+		return false
+	}
+	r := item.Rect()
+	for _, v := range [4]float64{r.Min.X, r.Min.Y, r.Max.X, r.Max.Y} {
+		if math.IsNaN(v) || math.IsInf(v, 0) {
+			return false
+		}
+	}
+	return true
 }
 
 // rtreeValueDown returns the largest float32 that is not greater than d and
